@@ -394,7 +394,11 @@ func (f *File) seekWithoutLocking(offset int64, whence int) (int64, error) {
 					return
 				}
 
-				// Hand the error to whoever reads from the pipe
+				// Hand the error to whoever reads from the pipe; a bare EOF (i.e. from a decoder that found no stream at
+				// all) would be taken for the regular end of the file
+				if err == io.EOF {
+					err = io.ErrUnexpectedEOF
+				}
 				_ = writer.CloseWithError(err)
 
 				return
@@ -575,7 +579,11 @@ func (f *File) Read(p []byte) (n int, err error) {
 					return
 				}
 
-				// Hand the error to whoever reads from the pipe
+				// Hand the error to whoever reads from the pipe; a bare EOF (i.e. from a decoder that found no stream at
+				// all) would be taken for the regular end of the file
+				if err == io.EOF {
+					err = io.ErrUnexpectedEOF
+				}
 				_ = writer.CloseWithError(err)
 
 				return
